@@ -64,7 +64,7 @@ def judge(res, scenario, fail, panic_at, base=None):
         return sum((1 if st["op"] in ops else 0) + count(st.get("body", []), ops) for st in body)
     for prog, verb, ops, extra in (("pack", "build", ("rebuild",), 1), ("docker", "run", ("container", "shell"), 0)):
         n_here = sum(1 for e in log if e["prog"] == prog and e["argv"][:1] == [verb])
-        n_max = count(scenario["root"]["body"], ops) + extra
+        n_max = sum(count(r["body"], ops) + extra for r in scenario.get("roots", [scenario.get("root")]))
         if n_here > n_max:
             v.append((f"repeated-invocation:{prog}-{verb}", f"{prog} {verb} was invoked {n_here} times, the scenario has {n_max} steps that invoke it"))
     dec = []
@@ -100,12 +100,14 @@ def judge(res, scenario, fail, panic_at, base=None):
                 v.append(("container-removed-before-last-use", f"container {x} removed at invocation {j + 1} but used at {max(others) + 1}"))
     # image and volumes of the root build
     builds = [d for d in dec if d["kind"] == "pack-build"]
-    if builds:
-        img = builds[0]["image"]
-        if any(b["image"] != img for b in builds):
-            v.append(("rebuild-uses-other-image", f"pack build images {[b['image'] for b in builds]}"))
-        # every cache volume any pack build of this run named (a rebuild must reuse the build's pair)
-        vols = sorted({n for b in builds for n in names_in(b) if n != b["image"]})
+    n_roots = len(scenario.get("roots", [None]))
+    images = []
+    for b in builds:
+        if b["image"] not in images:
+            images.append(b["image"])
+    if len(images) > n_roots:
+        v.append(("rebuild-uses-other-image", f"pack build images {[b['image'] for b in builds]} for {n_roots} root build(s)"))
+    for img in images:
         rmis = [j for j, r in enumerate(dec) if r["kind"] == "rmi" and img in r["names"]]
         if len(rmis) != 1:
             v.append(("image-removed-%d-times" % len(rmis), f"image {img} has {len(rmis)} removals"))
@@ -116,20 +118,22 @@ def judge(res, scenario, fail, panic_at, base=None):
             others = [u for u in uses(img) if u != j]
             if others and j < max(others):
                 v.append(("image-removed-before-last-use", f"image removed at invocation {j + 1} but used at {max(others) + 1}"))
-        for vol in vols:
-            rmv = [j for j, r in enumerate(dec) if r["kind"] == "volume-rm" and vol in r["names"]]
-            if len(rmv) != 1:
-                v.append(("volume-removed-%d-times" % len(rmv), f"cache volume {vol} has {len(rmv)} removals"))
-            else:
-                if not dec[rmv[0]]["force"]:
-                    v.append(("volume-removal-not-forced", f"volume {vol} removed without --force"))
-                last_build = max(i for i, d in enumerate(dec) if d["kind"] == "pack-build")
-                if rmv[0] < last_build:
-                    v.append(("volume-removed-before-last-use", f"volume {vol} removed before the last pack build"))
-        for b in builds:
-            nb = [n for n in names_in(b) if n != b["image"]]
-            if len(nb) != 2:
-                v.append(("cache-volumes", f"a pack build names {len(nb)} cache volumes"))
+    # every cache volume any pack build of this run named (a rebuild must reuse the build's pair)
+    vols = sorted({n for b in builds for n in names_in(b) if n != b["image"]})
+    for vol in vols:
+        rmv = [j for j, r in enumerate(dec) if r["kind"] == "volume-rm" and vol in r["names"]]
+        if len(rmv) != 1:
+            v.append(("volume-removed-%d-times" % len(rmv), f"cache volume {vol} has {len(rmv)} removals"))
+        else:
+            if not dec[rmv[0]]["force"]:
+                v.append(("volume-removal-not-forced", f"volume {vol} removed without --force"))
+            last_build = max(i for i, d in enumerate(dec) if d["kind"] == "pack-build" and vol in names_in(d))
+            if rmv[0] < last_build:
+                v.append(("volume-removed-before-last-use", f"volume {vol} removed before the last pack build that names it"))
+    for b in builds:
+        nb = [n for n in names_in(b) if n != b["image"]]
+        if len(nb) != 2:
+            v.append(("cache-volumes", f"a pack build names {len(nb)} cache volumes"))
     for d in dec:
         if d["kind"] in ("rm", "rmi", "volume-rm"):
             foreign = [n for n in d["names"] if n not in minted]
@@ -166,8 +170,12 @@ def describe(sc):
             else:
                 out.append(s["op"])
         return ",".join(out)
-    c = sc["root"]["cfg"]
-    return f"build[{c.get('expected', 'success')}{',pre' if c.get('preprocessor') else ''}]{{{b(sc['root']['body'])}}}"
+    def one(root):
+        c = root["cfg"]
+        return f"build[{c.get('expected', 'success')}{',pre' if c.get('preprocessor') else ''}]{{{b(root['body'])}}}"
+    if "roots" in sc:
+        return " ; then in the same process ".join(one(r) for r in sc["roots"])
+    return one(sc["root"])
 
 
 TRIPLE = "x86_64-unknown-linux-gnu"
@@ -325,6 +333,22 @@ def run(ctx):
         for sig, what in judge(r, sc, fail, sc.get("panic_at"), base=base_of.get(json.dumps(sc["root"], sort_keys=True))):
             dev = "no fault" if not fail and sc.get("panic_at") is None else (f"external command #{fail[0]} fails{' at create time (no container)' if isinstance(fail[0], str) else ''}" if fail else f"closure panics before step {sc['panic_at']}")
             res.violation(sig, f"{describe(sc)} with {dev}: {what}", {"scenario": sc, "fail": fail})
+    # several root builds in ONE process (as #[test]s of one test binary): state a build leaves in the
+    # process must not keep a later build from cleaning up; single faults at every invocation
+    multi = []
+    for r1 in ({"cfg": {"expected": "failure"}, "body": []}, {"cfg": {"expected": "success"}, "body": [{"op": "container", "cfg": {}, "body": []}]}):
+        for r2 in ({"cfg": {"expected": "success"}, "body": []}, {"cfg": {"expected": "success"}, "body": [{"op": "shell"}, {"op": "container", "cfg": {}, "body": []}]}):
+            multi.append({"roots": [r1, r2], "panic_at": None})
+    mbase = [run_one((i, sc, [], ctx.scratch)) for i, sc in enumerate(multi)]
+    mjobs = [(sc, [])for sc in multi] + [(sc, [k]) for sc, r in zip(multi, mbase) for k in range(1, len(r["log"]) + 3)]
+    with ProcessPoolExecutor(max_workers=16) as ex:
+        mres = list(ex.map(run_one, [(i, sc, fail, ctx.scratch) for i, (sc, fail) in enumerate(mjobs)], chunksize=4))
+    for (sc, fail), r in zip(mjobs, mres):
+        n += 1
+        for sig, what in judge(r, sc, fail, None):
+            dev = "no fault" if not fail else f"external command #{fail[0]} fails"
+            res.violation(sig, f"{describe(sc)} with {dev}: {what}", {"scenario": sc, "fail": fail})
+    res.cov("several_roots_in_one_process_runs", len(mjobs))
     # packaging scenarios: buildpack references that are packaged into a temporary directory by the
     # real libcnb-package code (real cargo, generated workspace); the temporary buildpack directory
     # must be gone however the test ends, and what pack saw must have been complete
@@ -350,7 +374,7 @@ def run(ctx):
     res.cov("distinct_nontrivial", len(fault_jobs))
     res.cov("distinct_outcomes", sorted(outcomes))
     res.cov("determinism_replays", 4)
-    res.cov("rule", "scenario trees: build(cfg){steps} with steps from {run_shell_command, download_sbom_files, start_container{<=2 of logs_now/logs_wait/address_for_port/shell_exec}, rebuild{steps} (last)}, node bound below the root, x expected pack result x preprocessor; deviations: none, each external command of the fault-free run exits 1 (incl. pack itself, docker run, and the cleanup commands), a panic before each step of each closure; distinct_nontrivial = single-fault runs")
+    res.cov("rule", "scenario trees: build(cfg){steps} with steps from {run_shell_command, download_sbom_files, start_container{<=2 of logs_now/logs_wait/address_for_port/shell_exec}, rebuild{steps} (last)}, node bound below the root, x expected pack result x preprocessor; the scenario runs on a thread with a long test-like name; plus pairs of root builds in one process; deviations: none, each external command of the fault-free run exits 1 (incl. pack itself, docker run, and the cleanup commands), a panic before each step of each closure; distinct_nontrivial = single-fault runs")
     res.cov("bound", {"nodes_below_root": budget, "deviations": 1})
     res.cov("exhaustive", True)
     res.sample({"scenario": describe(scenarios[len(scenarios) // 2]), "faults": "each of its external commands; each closure position"})
